@@ -1008,6 +1008,8 @@ def process(ctx, i, S, annos, stream='anno', light=False):
         # a soft-masked genome (Ensembl dna_sm / UCSC style): stretches in lower case
         for name in list(a.chroms):
             seq = list(a.chroms[name])
+            if not seq:
+                continue
             for _ in range(rng.randint(1, 6)):
                 x = rng.randrange(len(seq))
                 y = min(len(seq), x + rng.randint(1, 60))
